@@ -71,7 +71,20 @@ static std::string comp_name(const F8MetaCntx& ctx, unsigned idx, unsigned ncomp
 	return ctx._cn[idx];
 }
 
-static void dump_node(const F8MetaCntx& ctx, const MessageBase *mb, unsigned ncomps, std::ostream& os, int depth)
+// the group class a level reaches for a count field, the way decode does (find_add_group): the
+// GroupBase its constructor made, else create_nested_group of the message / of the enclosing group
+static GroupBase *reach_group(const MessageBase *mb, const GroupBase *parent, unsigned short fnum, std::unique_ptr<GroupBase>& own)
+{
+	GroupBase *gb(mb->find_group(fnum));
+	if (!gb)
+	{
+		own.reset(parent ? parent->create_nested_group(fnum) : mb->create_nested_group(fnum));
+		gb = own.get();
+	}
+	return gb;
+}
+
+static void dump_node(const F8MetaCntx& ctx, const MessageBase *mb, const GroupBase *parent, unsigned ncomps, std::ostream& os, int depth)
 {
 	if (depth > 40)
 	{
@@ -84,13 +97,14 @@ static void dump_node(const F8MetaCntx& ctx, const MessageBase *mb, unsigned nco
 		os << ' ' << itr->_fnum << ',' << static_cast<unsigned>(itr->_ftype) << ',' << itr->_pos << ','
 			<< comp_name(ctx, itr->_component, ncomps) << ',' << std::hex
 			<< (itr->_field_traits.get() & ~(1u << FieldTrait::present)) << std::dec;	// `present` is run-time state
-		GroupBase *gb(mb->find_group(itr->_fnum));
+		std::unique_ptr<GroupBase> own;
+		GroupBase *gb(reach_group(mb, parent, itr->_fnum, own));
 		if (gb)
 		{
 			std::unique_ptr<MessageBase> el(gb->create_group(true));
 			os << " {";
 			if (el.get())
-				dump_node(ctx, el.get(), ncomps, os, depth + 1);
+				dump_node(ctx, el.get(), gb, ncomps, os, depth + 1);
 			else
 				os << " NULL";
 			os << " }";
@@ -143,7 +157,7 @@ static unsigned class_code(const BaseField *bf)
 	return 998;
 }
 
-static void collect_types(const MessageBase *mb, std::map<unsigned, unsigned>& ftypes, int depth)
+static void collect_types(const MessageBase *mb, const GroupBase *parent, std::map<unsigned, unsigned>& ftypes, int depth)
 {
 	if (depth > 40)
 		return;
@@ -152,12 +166,13 @@ static void collect_types(const MessageBase *mb, std::map<unsigned, unsigned>& f
 	{
 		if (!(itr->_field_traits.has(FieldTrait::group)))
 			ftypes.insert({itr->_fnum, static_cast<unsigned>(itr->_ftype)});
-		GroupBase *gb(mb->find_group(itr->_fnum));
+		std::unique_ptr<GroupBase> own;
+		GroupBase *gb(reach_group(mb, parent, itr->_fnum, own));
 		if (gb)
 		{
 			std::unique_ptr<MessageBase> el(gb->create_group(true));
 			if (el.get())
-				collect_types(el.get(), ftypes, depth + 1);
+				collect_types(el.get(), gb, ftypes, depth + 1);
 		}
 	}
 }
@@ -179,12 +194,12 @@ static std::string dump_tables(const F8MetaCntx& ctx, unsigned ncomps)
 	for (MsgTable::const_iterator mi(ctx._bme.begin()); mi != ctx._bme.end(); ++mi)
 	{
 		std::unique_ptr<MessageBase> mb(make_entry(mi));
-		collect_types(mb.get(), ftypes, 0);
+		collect_types(mb.get(), nullptr, ftypes, 0);
 		if (!is_ht(mi->_key))
 		{
 			const Message *msg(static_cast<const Message *>(mb.get()));
 			if (msg->Header())
-				collect_types(msg->Header(), ftypes, 0);
+				collect_types(msg->Header(), nullptr, ftypes, 0);
 		}
 	}
 	os << " | F";
@@ -235,20 +250,27 @@ static std::string dump_tables(const F8MetaCntx& ctx, unsigned ncomps)
 }
 
 // ---------------------------------------------------------------------------------- probes
-static bool build(const F8MetaCntx& ctx, MessageBase *mb, const std::vector<PNode>& ps)
+static bool build(const F8MetaCntx& ctx, MessageBase *mb, GroupBase *parent, const std::vector<PNode>& ps)
 {
 	for (const PNode& p : ps)
 	{
 		std::string text(p.val);
 		if (p.grp)
 		{
-			GroupBase *gb(mb->find_group(p.num));
+			// = find_add_group, which would dereference a null create_nested_group result
+			GroupBase *gb(mb->find_group(static_cast<unsigned short>(p.num)));
 			if (!gb)
-				return false;
+			{
+				gb = parent ? parent->create_nested_group(static_cast<unsigned short>(p.num))
+					: mb->create_nested_group(static_cast<unsigned short>(p.num));
+				if (!gb)
+					return false;
+				mb->add_group(gb);
+			}
 			for (const auto& el : p.elems)
 			{
 				std::unique_ptr<MessageBase> e(gb->create_group(true));
-				if (!e.get() || !build(ctx, e.get(), el))
+				if (!e.get() || !build(ctx, e.get(), gb, el))
 					return false;
 				*gb += e.release();
 			}
@@ -284,7 +306,7 @@ static void flatten(const std::vector<PNode>& ps, std::vector<std::pair<unsigned
 static int run_probe(const F8MetaCntx& ctx, const MsgTable::Pair *pp, const std::vector<PNode>& ph, const std::vector<PNode>& pb)
 {
 	std::unique_ptr<Message> msg(pp->_value._create._do(true));
-	if (!msg->Header() || !build(ctx, msg->Header(), ph) || !build(ctx, msg.get(), pb))
+	if (!msg->Header() || !build(ctx, msg->Header(), nullptr, ph) || !build(ctx, msg.get(), nullptr, pb))
 		return 1;
 	f8String wire;
 	msg->encode(wire);
@@ -365,7 +387,7 @@ int main()
 				{
 					std::unique_ptr<MessageBase> mb(make_entry(pp));
 					os << "N";
-					dump_node(ctx, mb.get(), ncomps, os, 0);
+					dump_node(ctx, mb.get(), nullptr, ncomps, os, 0);
 					os << " |";
 					for (unsigned ii(0); ii < nprobes; ++ii)
 					{
